@@ -474,8 +474,12 @@ def inlined_function(src, qualname: str, depth: int = 2):
     if fi is None:
         raise AnalysisError('common', f'{qualname} not found')
     if fi.cls is None:
-        _norm_cache[key] = fi
-        return fi
+        # a module-level function: private helpers of the same module are read in place
+        from ..inline import module_resolver
+        f2 = _copy.copy(fi)
+        f2.node = inline_methods(fi.node, module_resolver(fi.module.tree, exclude={fi.node.name}), depth=depth)
+        _norm_cache[key] = f2
+        return f2
     from ..inline import inline_class_constants
     f2 = _copy.copy(fi)
     f2.node = inline_class_constants(inline_methods(fi.node, class_resolver(src, fi.cls, fi), depth=depth), fi.cls.node, fi.cls.name)
